@@ -105,7 +105,7 @@ type recCall struct {
 func (r *recFs) rec(op string, p ...string) { r.calls = append(r.calls, recCall{op, p}) }
 
 func (r *recFs) Create(n string) (afero.File, error) { r.rec("Create", n); return r.Fs.Create(n) }
-func (r *recFs) Mkdir(n string, p os.FileMode) error  { r.rec("Mkdir", n); return r.Fs.Mkdir(n, p) }
+func (r *recFs) Mkdir(n string, p os.FileMode) error { r.rec("Mkdir", n); return r.Fs.Mkdir(n, p) }
 func (r *recFs) MkdirAll(n string, p os.FileMode) error {
 	r.rec("MkdirAll", n)
 	return r.Fs.MkdirAll(n, p)
